@@ -1158,6 +1158,77 @@ func (c *Ctx) verifyCores() (cores []*ssa.Function, regionOf map[*ssa.Function]m
 			regionOf[f] = region
 		}
 	}
+	// Several exported functions (and validator closures) may share one unexported function that does the whole
+	// verification (endorsementProto(endorsement, opts, …) called by Endorsement, EndorsementProto and the validator):
+	// that shared function is then the core — it is the frame that holds the endorsement and the options — and the
+	// exported ones are entry points that reach it (R3).
+	subRegion := func(g *ssa.Function) map[*ssa.Function]bool {
+		region := map[*ssa.Function]bool{g: true}
+		stack := []*ssa.Function{g}
+		for len(stack) > 0 {
+			x := stack[len(stack)-1]
+			stack = stack[:len(stack)-1]
+			for _, h := range callees(x) {
+				if region[h] || exported(h) {
+					continue
+				}
+				region[h] = true
+				stack = append(stack, h)
+			}
+		}
+		return region
+	}
+	sigIn := func(region map[*ssa.Function]bool) bool {
+		for g := range region {
+			if len(callsIn(g, func(call ssa.CallInstruction) bool { return calleeIs(call, x509CheckSig) })) > 0 {
+				return true
+			}
+		}
+		return false
+	}
+	if len(cores) > 1 {
+		shared := map[*ssa.Function]int{}
+		for _, core := range cores {
+			for g := range regionOf[core] {
+				if g == core || g.Parent() != nil {
+					continue
+				}
+				// a direct callee of the exported function (or of its closures) whose own region holds the check
+				direct := false
+				for x := range regionOf[core] {
+					if x != core && x.Parent() == nil {
+						continue
+					}
+					for _, call := range callsIn(x, func(call ssa.CallInstruction) bool { return call.Common().StaticCallee() == g }) {
+						_ = call
+						direct = true
+					}
+				}
+				if direct && sigIn(subRegion(g)) {
+					shared[g]++
+				}
+			}
+		}
+		var lifted []*ssa.Function
+		for g, n := range shared {
+			if n >= 2 {
+				lifted = append(lifted, g)
+			}
+		}
+		if len(lifted) == 1 {
+			g := lifted[0]
+			var kept []*ssa.Function
+			for _, core := range cores {
+				if !regionOf[core][g] {
+					kept = append(kept, core)
+				} else {
+					delete(regionOf, core)
+				}
+			}
+			cores = append(kept, g)
+			regionOf[g] = subRegion(g)
+		}
+	}
 	sort.Slice(cores, func(i, j int) bool { return cores[i].Pos() < cores[j].Pos() })
 	return cores, regionOf
 }
